@@ -102,22 +102,19 @@ theorem C16_periodic (iv to horizon fuel : Nat) (arr : List (Nat × Keepalive.Ki
   · rw [(h.fst hf).1]; rfl
   · exact (h.rest (by simpa using hf)).2.1
 
-/- Full-strength target that does NOT hold of the code (finding F12, recorded):
-
-     theorem C16_detect : accepted (iv, to) → peer silent from the ping at T on → a timeout is reported at some
-       r ≤ T + 2·to
-
-   It fails for to < iv ≤ 2·to (`C16_detect_counterexample`): every new ping overwrites `last_ping_tm`.
-   Proved instead: `C16_detect_partial`, the same statement under `iv > 2·to`; nothing else is missing. -/
+/-- generated facts (repair of F12): `_send_ping` stamps `last_ping_tm` only when the previous ping has been answered
+    (`last_pong_tm >= last_ping_tm`), `read()` stamps `last_pong_tm` only for the answer to the outstanding ping
+    (`last_pong_tm < last_ping_tm`). -/
+theorem stamps_in_source : Gen.appPingStampWhenAnswered = true ∧ Gen.appPongStampWhenOutstanding = true := by decide
 
 open WS.Lemmas.Keepalive in
-/-- **C16_detect_partial** (needs `iv > 2·to`) — for every arrival pattern and schedule: if after `k`
-    iterations of the loop (none of which reported or reached the horizon) the ping at `T` has just been
-    sent and the peer is silent from then on (`Window`: last_ping_tm = T, no pong since, only data frames
-    still to come, the loop has not slept past T + to), then the run reports a ping/pong timeout at some
-    tick `r` with `T + to < r ≤ T + 2·to`. -/
-theorem C16_detect_partial (iv to horizon T fuel k : Nat) (arr : List (Nat × Keepalive.Kind)) (sched : List Bool)
-    (h2 : 2 * to < iv) (hto : 0 < to) (hz : T + 2 * to ≤ horizon)
+/-- **C16_detect** — for EVERY interval and timeout, every arrival pattern and schedule: if after `k` iterations of the
+    loop (none of which reported or reached the horizon) the ping at `T` has been sent and the peer is silent from then
+    on (`Window`: last_ping_tm = T, no pong since, only data frames still to come, the loop has not slept past T + to),
+    then the run reports a ping/pong timeout at some tick `r` with `T + to < r ≤ T + 2·to` — no later than two timeouts
+    after the first ping the peer failed to answer; the pings that follow it do not postpone the report. -/
+theorem C16_detect (iv to horizon T fuel k : Nat) (arr : List (Nat × Keepalive.Kind)) (sched : List Bool)
+    (hto : 0 < to) (hz : T + 2 * to ≤ horizon)
     (hq : quietFor iv to horizon k (Keepalive.init iv arr sched))
     (hw : Window iv to T (stepN iv to k (Keepalive.init iv arr sched)))
     (hf : k + arr.length + 2 ≤ fuel) :
@@ -126,7 +123,7 @@ theorem C16_detect_partial (iv to horizon T fuel k : Nat) (arr : List (Nat × Ke
   simp only []
   obtain ⟨n, rfl⟩ : ∃ n, fuel = k + n := ⟨fuel - k, by omega⟩
   rw [loop_skip iv to horizon k n _ hq]
-  refine detect_in_window iv to horizon T h2 hto hz n _ hw ?_
+  refine detect_in_window iv to horizon T hto hz n _ hw ?_
   -- the remaining arrivals are at most the scripted ones
   have hlen : ∀ (j : Nat) (s : Keepalive.St), (stepN iv to j s).arr.length ≤ s.arr.length := by
     intro j
@@ -169,60 +166,52 @@ theorem C16_detect_partial (iv to horizon T fuel k : Nat) (arr : List (Nat × Ke
   rw [harr] at this
   split <;> omega
 
-/-- **C16_detect_counterexample** (F12) — iv = 3 s, to = 2 s (an accepted pair), one data frame at 1.8 s,
-    the peer never answers: pings at 6 s and 9 s, the timeout is reported at 11.8 s, later than
-    6 s + 2·2 s. -/
-theorem C16_detect_counterexample :
+/-- F12's first scenario after the repair, executed: iv = 3 s, to = 2 s (an accepted pair), one data frame at 1.8 s, the
+    peer never answers: pings at 6 s and 9 s, the timeout is reported at 10.08 s ≤ 6 s + 2·2 s (before: 11.8 s). -/
+theorem C16_detect_former_counterexample :
     App.argsAccepted 3072 (some 2048) = true ∧
-    Keepalive.run 3072 2048 20480 100 [(1843, .data)] [] = ([6144, 9216], some 12083) ∧
-    12083 > 6144 + 2 * 2048 := by
+    (Keepalive.run 3072 2048 20480 100 [(1843, .data)] []).2 = some 10035 ∧ 10035 ≤ 6144 + 2 * 2048 := by
   decide
 
-/-- the same on the full application model: the trace of `run_forever` (F12) -/
+/-- the same on the full application model: the trace of `run_forever` -/
 example :
     let c : App.Cfg := { has := fun cb => cb = .onError, plan := fun _ => [], iv := 3072, to := some 2048,
                          payload := [], reconnect := 0, ssl := false, horizon := 20480, fuel := 100 }
     let tr := (App.runForever c { dials := [.established [⟨1843, false, .message 1 [0x78] false⟩]] }).trace
     (tr.filterMap fun te => match te.2 with
       | .wrote 9 _ => some (te.1, "ping") | .cb .onError [.exn .timeout] => some (te.1, "timeout") | _ => none) =
-      [(6144, "ping"), (9216, "ping"), (12083, "timeout")] := by
+      [(6144, "ping"), (9216, "ping"), (10035, "timeout")] := by
   decide
 
 open WS.Lemmas.Keepalive in
-/-- **C16_no_false_positive** — for every accepted pair (`to < iv`), every arrival pattern of data frames, every
-    order at simultaneous wake-ups (schedule), every horizon and fuel: a peer whose pongs are answers --
-    each one arrives within `to` after a ping tick, every ping whose answer window lies before the horizon
-    gets one (`Responsive`) -- is never reported.  (The full-strength statement "whatever the other traffic"
-    fails for unsolicited late pongs: `C16_no_false_positive_counterexample`, finding F12.) -/
+/-- **C16_no_false_positive** — for every accepted pair (`to < iv`), EVERY arrival pattern (data frames, further pongs,
+    unsolicited pongs at any time), every order at simultaneous wake-ups (schedule), every horizon and fuel: a peer that
+    answers every ping within `to` (`Answering`: each ping whose answer window lies before the horizon is followed by a
+    pong within `to`) is never reported. -/
 theorem C16_no_false_positive (iv to horizon fuel : Nat) (arr : List (Nat × Keepalive.Kind)) (sched : List Bool)
-    (hiv : 0 < iv) (hto : to < iv) (hr : Responsive iv to horizon arr) :
+    (hto : to < iv) (hr : Answering iv to horizon arr) :
     (Keepalive.run iv to horizon fuel arr sched).2 = none := by
   unfold Keepalive.run
-  exact loop_no_report iv to horizon arr hiv hto hr fuel _ (ninv_init iv horizon arr sched)
+  exact loop_no_report iv to horizon arr hto hr fuel _ (ainv_init iv to horizon arr sched)
 
 open WS.Lemmas.Keepalive in
-/-- non-vacuity: iv = 10, to = 5, horizon 40; data frames at 3 and 25, pongs one tick after the pings at 20
-    and 30: the hypotheses hold (and the run indeed reports nothing). -/
-example : Responsive 10 5 40 [(3, .data), (21, .pong), (25, .data), (31, .pong)] ∧
-    Keepalive.run 10 5 40 50 [(3, .data), (21, .pong), (25, .data), (31, .pong)] [true, false] = ([20, 30, 40], none) := by
-  refine ⟨⟨by decide, ?_, ?_⟩, by decide⟩
-  · intro a ha
-    simp at ha
-    rcases ha with rfl | rfl
-    · exact Or.inr ⟨2, by omega, by omega, by omega⟩
-    · exact Or.inr ⟨3, by omega, by omega, by omega⟩
-  · intro k hk hlt
-    have : k = 2 ∨ k = 3 := by omega
-    rcases this with rfl | rfl
-    · exact ⟨21, by simp, by omega, by omega⟩
-    · exact ⟨31, by simp, by omega, by omega⟩
+/-- non-vacuity: iv = 10, to = 5, horizon 40; data frames at 3 and 25, pongs one tick after the pings at 20 and 30 AND an
+    unsolicited pong at 28: the hypothesis holds (and the run indeed reports nothing). -/
+example : Answering 10 5 40 [(3, .data), (21, .pong), (25, .data), (28, .pong), (31, .pong)] ∧
+    Keepalive.run 10 5 40 50 [(3, .data), (21, .pong), (25, .data), (28, .pong), (31, .pong)] [true, false] = ([20, 30, 40], none) := by
+  refine ⟨⟨by decide, ?_⟩, by decide⟩
+  intro k hk hlt
+  have : k = 2 ∨ k = 3 := by omega
+  rcases this with rfl | rfl
+  · exact ⟨21, by simp, by omega, by omega⟩
+  · exact ⟨31, by simp, by omega, by omega⟩
 
-/- F12, second part (recorded): a responsive peer that also sends an unsolicited pong later than `to` after
-   the last ping is reported (`last_pong_tm - last_ping_tm > ping_timeout`). -/
-/-- **C16_no_false_positive_counterexample** (F12) — iv = 2 s, to = 1 s; the peer answers the ping sent at
-    4 s one tick later and sends one more, unsolicited, pong at 5 s + 1 tick: reported at that tick. -/
-theorem C16_no_false_positive_counterexample :
-    Keepalive.run 2048 1024 12287 100 [(4097, .pong), (5121, .pong)] [] = ([4096], some 5121) := by
+/-- F12's second scenario after the repair, executed: iv = 2 s, to = 1 s; the peer answers the ping sent at 4 s one tick
+    later and sends one more, unsolicited, pong at 5 s + 1 tick: nothing is reported up to the next ping (before: reported
+    at that tick); when the peer then really stops answering (ping at 6 s), that is reported within two timeouts. -/
+theorem C16_no_false_positive_former_counterexample :
+    (Keepalive.run 2048 1024 6143 100 [(4097, .pong), (5121, .pong)] []).2 = none ∧
+    (Keepalive.run 2048 1024 12287 100 [(4097, .pong), (5121, .pong)] []).2 = some 7169 ∧ 7169 ≤ 6144 + 2 * 1024 := by
   decide
 
 end WS.Props.C16
